@@ -233,6 +233,38 @@ class ConsumerPowerFormula(FormulaGenerator[Power]):
                     nones_are_zeros=component.category != ComponentCategory.METER,
                 )
 
+        # A consumer component can be a meter that also has battery, CHP, PV or EV
+        # charger chains below it.  Those are not consumers, so they have to be
+        # subtracted, like in the case with a grid meter.
+        def non_consumer_component(component: Component) -> bool:
+            return (
+                component_graph.is_battery_chain(component)
+                or component_graph.is_chp_chain(component)
+                or component_graph.is_pv_chain(component)
+                or component_graph.is_ev_charger_chain(component)
+            )
+
+        non_consumer_components: set[Component] = set()
+        for consumer in consumer_components:
+            non_consumer_components = non_consumer_components.union(
+                component_graph.dfs(consumer, set(), non_consumer_component)
+            )
+
+        non_consumer_fallbacks: dict[
+            Component, FallbackFormulaMetricFetcher[Power] | None
+        ] = (
+            self._get_fallback_formulas(non_consumer_components)
+            if self._config.allow_fallback
+            else {component: None for component in non_consumer_components}
+        )
+        for component, fallback_formula in non_consumer_fallbacks.items():
+            builder.push_oper("-")
+            builder.push_component_metric(
+                component.component_id,
+                nones_are_zeros=component.category != ComponentCategory.METER,
+                fallback=fallback_formula,
+            )
+
         return builder.build()
 
     def _get_fallback_formulas(
